@@ -367,19 +367,63 @@ func runC13(c *Ctx) {
 			// V5 region of the error value
 			es := p.Sym(errV)
 			name := es.String()
-			region := func(o otype) bool { return true }
-			known := true
-			switch {
-			case strings.HasSuffix(name, ".IsValid(rt)") || strings.Contains(name, "IsValid"):
-				region = func(o otype) bool { return o.I != 'p' || o.Q != 'p' }
-			case strings.HasSuffix(name, "ErrMinimumIntervalNegative"):
-				region = func(o otype) bool { return o.rm < o.r0 }
-			case strings.HasSuffix(name, "ErrConvertedIntervalZero"):
-				region = func(o otype) bool { return o.rm == o.r0 && o.rv == o.r0 }
-			case p.onlyErrorOf(errV, "ErrConvertedQuantityUnrepresentable") || strings.HasSuffix(name, "ErrConvertedQuantityUnrepresentable"):
-				region = func(o otype) bool { return o.I == 'p' && o.Q == 'p' && o.rm > o.r0 }
-			default:
-				known = false
+			var regionOf func(v ssa.Value, depth int) (func(o otype) bool, bool)
+			regionOf = func(v ssa.Value, depth int) (func(o otype) bool, bool) {
+				nm := p.Sym(v).String()
+				switch {
+				case strings.HasSuffix(nm, ".IsValid(rt)") || strings.Contains(nm, "IsValid"):
+					return func(o otype) bool { return o.I != 'p' || o.Q != 'p' }, true
+				case strings.HasSuffix(nm, "ErrMinimumIntervalNegative"):
+					return func(o otype) bool { return o.rm < o.r0 }, true
+				case strings.HasSuffix(nm, "ErrConvertedIntervalZero"):
+					return func(o otype) bool { return o.rm == o.r0 && o.rv == o.r0 }, true
+				case p.onlyErrorOf(v, "ErrConvertedQuantityUnrepresentable") || strings.HasSuffix(nm, "ErrConvertedQuantityUnrepresentable"):
+					return func(o otype) bool { return o.I == 'p' && o.Q == 'p' && o.rm > o.r0 }, true
+				}
+				// a private validation helper that hands on one of several errors (isRecalculable =
+				// IsValid, then minimum < 0): the union of their regions
+				idx := 0
+				cv := v
+				if ex, isEx := cv.(*ssa.Extract); isEx {
+					cv, idx = ex.Tuple, ex.Index
+				}
+				call, isCall := cv.(*ssa.Call)
+				if !isCall || depth > 2 {
+					return nil, false
+				}
+				cal := p.Callee(call)
+				if cal == nil || !p.IsProduct(cal) || len(call.Call.Args) == 0 || p.Sym(call.Call.Args[0]).String() != p.Sym(recv).String() {
+					return nil, false
+				}
+				var parts []func(o otype) bool
+				for _, rs := range p.resultSyms(cal, idx) {
+					if rs.Op == "const" && rs.Name == "nil" {
+						continue
+					}
+					if rs.V == nil {
+						return nil, false
+					}
+					part, okp := regionOf(rs.V, depth+1)
+					if !okp {
+						return nil, false
+					}
+					parts = append(parts, part)
+				}
+				if len(parts) == 0 {
+					return nil, false
+				}
+				return func(o otype) bool {
+					for _, part := range parts {
+						if part(o) {
+							return true
+						}
+					}
+					return false
+				}, true
+			}
+			region, known := regionOf(errV, 0)
+			if !known {
+				region = func(o otype) bool { return true }
 			}
 			var bad []otype
 			for _, o := range ots {
